@@ -35,6 +35,7 @@ type Engine struct {
 	SpecFiles []string
 	VarFuncs  map[string]*ssa.Function // "var pkg.name" -> function stored there by the package initialiser
 	VarStores map[string]int           // number of stores to the global outside the package initialiser
+	Guards    map[string]*GuardDef     // "H.<typekey>.<field>" -> discipline
 	Lemmas    []*LemmaDef
 	SmtDefs   []*SmtDef
 
@@ -324,6 +325,16 @@ func (e *Engine) LoadSpecs(extDir string) error {
 		e.Axioms = append(e.Axioms, sf.Axioms...)
 		e.Lemmas = append(e.Lemmas, sf.Lemmas...)
 		e.SmtDefs = append(e.SmtDefs, sf.SmtDefs...)
+		for _, gd := range sf.Guards {
+			t := e.resolveTypeString(gd.Type, gd.Pkg)
+			if t == nil {
+				return fmt.Errorf("%s:%d: unknown type %s", gd.File, gd.Line, gd.Type)
+			}
+			if e.Guards == nil {
+				e.Guards = map[string]*GuardDef{}
+			}
+			e.Guards["H."+typeKey(t)+"."+gd.Field] = gd
+		}
 		for _, g := range sf.Ghosts {
 			e.Ghosts[g.Name] = g
 		}
